@@ -479,7 +479,7 @@ PROFILES = {
     "C07": dict(params=0.85, jumps=0.6, faults=0.12, hooks=0.2, join=0.1),
     "C08": dict(jumps=0.85, params=0.3, hooks=0.2, join=0.2, n_passages=(3, 7)),
     "C09": dict(hooks=1.0, join=0.4, jumps=0.3, faults=0.04),
-    "C10": dict(join=1.0, hooks=0.4, one_time=0.5, jumps=0.2),
+    "C10": dict(join=1.0, hooks=0.4, one_time=0.5, jumps=0.2, faults=0.2),
     "C15": dict(faults=0.3, params=0.5, hooks=0.5, join=0.3, jumps=0.4, loops=0.7),
 }
 
@@ -665,6 +665,37 @@ def call_shape_phase(chk, rng, n):
                        {"story_source": src, "ops": ops, "signature": sig, "args": args})
         else:
             stats["ran_ok"] += 1
+    # the initial passage is entered without arguments: every way of designating it x every signature
+    stats["initial"] = {"rejected": 0, "started": 0}
+    for _ in range(max(12, n // 8)):
+        k = rng.randint(1, 3)
+        names = ["p", "q", "r"][:k]
+        nreq = rng.randint(0, k)
+        sig = ", ".join(nm if i < nreq else f"{nm}={rng.choice(['0', '1', 'p + 1' if i > 0 else '2'])}" for i, nm in enumerate(names))
+        how = rng.choice(["first-passage", "Start", "@start"])
+        body = f"Room {{{names[0]}}}\n+ [Go] -> Other\n\n:: Other\nother\n+ [Back] -> Other\n"
+        src = {"first-passage": f":: Room({sig})\n{body}", "Start": f":: Intro\ni\n+ [Go] -> Other\n\n:: Start({sig})\n{body}",
+               "@start": f"@start Room\n:: Intro\ni\n+ [Go] -> Other\n\n:: Room({sig})\n{body}"}[how]
+        try:
+            story = R.compile_story(src)
+        except (SyntaxError, ValueError):
+            stats["initial"]["rejected"] += 1
+            if nreq == 0:
+                chk.report(f"startable-initial-passage-rejected:{how}", f"initial passage ({sig}) has only defaulted parameters "
+                           "but the story does not compile", {"story_source": src})
+            continue
+        if nreq > 0:
+            chk.report(f"initial-passage-requires-arguments-accepted:{how}",
+                       f"the story starts in a passage with required parameter(s) ({sig}) and compiles: it cannot be started",
+                       {"story_source": src})
+            continue
+        recs, eng = R.run_history(story, [])
+        if eng is None:
+            chk.report(f"compiled-story-cannot-start:{how}", f"BardEngine(story) failed: {recs[0].get('error', recs[0]['obs'])}",
+                       {"story_source": src})
+        else:
+            stats["initial"]["started"] += 1
+        chk.count(("initial", how, sig), True)
     return stats
 
 
@@ -790,6 +821,11 @@ def run_engine_property(pid: str, tier: str, seed: int, design_note: str) -> int
             # a directed history: straight into a @join passage, then mostly join choices
             ops = [("choose_text", "Enter " + r.choice(g.joins), r.randint(0, 5))] + \
                   [("choose_text", "Join", r.randint(0, 5)) if r.random() < 0.6 else o for o in ops]
+        if len(ops) >= 3 and r.random() < 0.3:
+            # an in-memory checkpoint early, play, the checkpoint loaded again late (raw: the very dict save_state() gave)
+            i1 = r.randrange(0, len(ops) // 2 + 1)
+            ops.insert(i1, ("save", r.choice(["raw", "raw", "json"])))
+            ops.insert(r.randrange(i1 + 2, len(ops) + 1), ("load",))
         if pid == "C04" and nops >= 60:
             ops = [("choose_valid", r.randint(0, 5)) for _ in range(56)] + [("undo",)] * 53 + [("redo",)] * 3
             long_histories += 1
